@@ -4,7 +4,13 @@
    lss stands for TensorMath.log_sqrt_symm and expm for jax.scipy.linalg.expm: the theorems hold for EVERY function lss, and
    for every expm with det(expm A) = exp(tr A); the relaxation theorems assume in addition the coaxial update identity Hcoax
    (exact for the true matrix logarithm / exponential because the increment is a multiple of the deviator of the trial strain).
-   fac dt tau = 1/(1+dt/tau) is the integration factor; nds E = |dev E|^2; Etrial lss H Fv is the trial logarithmic strain. *)
+   fac dt tau = 1/(1+dt/tau) is the integration factor; nds E = |dev E|^2; Etrial lss H Fv is the trial logarithmic strain.
+   Round 3: both hypotheses are PROVED for the spectral functions lss_spec / expm_spec of model/M_C11s.v (V diag(f(lam)) V^T over an
+   eigen-solver that stays a parameter) from the solver contract eigh_ok at the matrices it is called on (theorems with `spectral` in their name and
+   C11_coaxial_update, C11_coaxial_update_three_branch); relaxation over arbitrary step sequences is stated for every branch and for the reported total.
+   NOT PROVED: that TensorMath.eigen_sym33_unit satisfies eigh_ok (existence of such a solver for every symmetric matrix is the spectral
+   theorem, accuracy of the routine is property C12) and that jax.scipy.linalg.expm (Pade approximant) equals the spectral exponential;
+   both are evaluated numerically by the harness on every run.  Binary64 rounding is outside the theorems. *)
 From Coq Require Import Reals List.
 From OV.base Require Import Num.
 From OV.model Require Import M_C08 M_C11 M_C11s.
@@ -128,9 +134,9 @@ Proof. exact reported_is_energy_minus_dissipation_hv. Qed.
         lss_spec eighL = TensorMath.log_sqrt_symm over its eigen-solver (same formula, tied by stream `spectral`), expm_spec eighE = the
         spectral exponential (tied numerically to jax.scipy.linalg.expm).  A spectral function does not depend on which orthogonal
         decomposition the solver returns (C11_spectral_function_unique), so the only premises are: F and Fv invertible, and the contract
-        eigh_ok at the three matrices the solvers are called on in the step (step_ok_*: Ce = Fe^T Fe, the increment, Ce after the update).
+        eigh_ok at the three matrices the solvers are called on in the step (step_ok_hv, step_ok_b: Ce = Fe^T Fe, the increment, Ce after the update).
         With it, relaxation over ARBITRARY step sequences holds with no hypothesis on the matrix functions beyond the solver contract
-        along the sequence (seq_ok_*), for the single-branch model and every branch of the three-branch model. *)
+        along the sequence (seq_ok_hv, seq_ok_b), for the single-branch model and every branch of the three-branch model. *)
 Theorem C11_spectral_function_unique : forall (V V' : M) a0 a1 a2 b0 b1 b2 (f : R -> R),
   mmul (mtr V) V = mid -> mmul V (mtr V) = mid -> mmul (mtr V') V' = mid -> mmul V' (mtr V') = mid ->
   cj V (mdiag a0 a1 a2) = cj V' (mdiag b0 b1 b2) -> cj V (mdiag (f a0) (f a1) (f a2)) = cj V' (mdiag (f b0) (f b1) (f b2)).
